@@ -907,6 +907,21 @@ def handleSpec (name : String) (ins ans : List String) : String :=
             | _ => s!"FAIL the clean transmission after the hostile prefix produced {soms.length} StartOfMessage with its text (receiver left deaf or confused)"
         | _, _, _ => "FAIL unparsable"
       | _, _ => "FAIL unparsable"
+    | "c10cold" =>
+      -- answer: messages after the prefix (times relative to its end) || messages of a cold-started receiver
+      match arg.toNat? with
+      | some rate =>
+        let a := ans.takeWhile (· != "||")
+        let b := (ans.dropWhile (· != "||")).drop 1
+        match parseScOuts a, parseScOuts b with
+        | some ma, some mb =>
+          if ma.length != mb.length then s!"FAIL after the hostile prefix {ma.length} messages were reported, from a cold start {mb.length}"
+          else optVerdict ((ma.zip mb).findSome? (fun (x, y) =>
+            if x.msg != y.msg then some "after the hostile prefix a different message was reported than from a cold start"
+            else if x.t + rate / 4 < y.t || y.t + rate / 4 < x.t then some s!"a message was reported at {x.t} samples after the prefix, from a cold start at {y.t} (more than a quarter of a second apart)"
+            else none))
+        | _, _ => "FAIL unparsable"
+      | none => "FAIL unparsable"
     | "c07" =>
       match unhex arg, parseSigEvs ans with
       | some payload, some evs =>
@@ -945,6 +960,8 @@ def handleSpec (name : String) (ins ans : List String) : String :=
       | some evs => verdict (!evs.any (fun e => match e with | .msg _ (.som ..) => true | _ => false))
           "a StartOfMessage was reported for audio that carries no header in two bursts"
       | none => "FAIL unparsable"
+    | "c13stamp" =>
+      verdict (ans == ["ok"]) s!"an event timestamp is not the number of samples consumed when it was produced: {" ".intercalate ans}"
     | "c13life" =>
       match parseSigEvs ans with
       | some evs => optVerdict (Spec.oracleLifecycle evs)
@@ -1254,6 +1271,14 @@ partial def loop (h : IO.FS.Stream) (out : IO.FS.Stream) (st : DState) : IO Unit
   if args.head? == some "rx.full" then
     -- the one request that reads a file (the audio of a whole case)
     let ans ← (fullRxOp args.tail).toBaseIO
+    out.putStrLn (match ans with | .ok a => a | .error e => s!"io-error {e}")
+    loop h out st
+  else if args.head? == some "app.full" then
+    let ans ← (appFullOp args.tail).toBaseIO
+    out.putStrLn (match ans with | .ok a => a | .error e => s!"io-error {e}")
+    loop h out st
+  else if args.head? == some "rx.fullreset" then
+    let ans ← (fullRxResetOp args.tail).toBaseIO
     out.putStrLn (match ans with | .ok a => a | .error e => s!"io-error {e}")
     loop h out st
   else
